@@ -66,6 +66,9 @@ pub enum Op {
     StdoutGrant { n: u32 },
     /// Marks the start of the fault-free end phase (bookkeeping only).
     QuiesceMark,
+    /// From now on nothing is done for this hash: its RPCs are never applied,
+    /// its parts never resolve, its pay commands never progress (C14).
+    Freeze { hash: u8 },
 }
 
 impl Op {
@@ -87,6 +90,7 @@ impl Op {
             Op::Outage { .. } => "outage",
             Op::StdoutGrant { .. } => "stdout-grant",
             Op::QuiesceMark => "quiesce",
+            Op::Freeze { .. } => "freeze",
         }
     }
 
